@@ -16,7 +16,7 @@ PARAM_NAMES = ("p1", "p2", "p3", "p4", "kw")
 TYP_T0 = {
     "str": "str", "int": "int", "float": "float", "bool": "bool",
     "OptStr": "Optional[str]", "OptInt": "Optional[int]", "OptBool": "Optional[bool]",
-    "ListStr": "List[str]", "LitStr": "Literal['np', 'tf']", "UnionIntStr": "Union[int, str]",
+    "ListStr": "List[str]", "LitStr": "Literal['np', 'tf']", "LitInt": "Literal[5, 7]", "UnionIntStr": "Union[int, str]",
     "TupleIntStr": "Tuple[int, str]", "Dotted": "np.ndarray", "OptDict": "Optional[dict]",
 }
 OBS_ONLY_TYP = {"object": "object", "Any": "Any", "NoneType": "NoneType", "dict": "dict"}
@@ -28,6 +28,7 @@ def _t0():
         "names": {"p1": "dataset_name", "p2": "tfds_dir", "p3": "batch_size", "p4": "as_numpy", "kw": "data_loader_kwargs"},
         "typ": dict(TYP_T0),
         "lit": ("np", "tf"),
+        "litint": (5, 7),
         "def": {"int0": 0, "intPos": 5, "intNeg": -5, "float": 0.25, "boolT": True, "boolF": False,
                 "strEmpty": "", "str": "mnist"},
         "code": {"ListStr": "['a', 'b']", "TupleIntStr": "(5, 'x')", "Dotted": "np.empty(0)", "none": "np.empty(0)",
@@ -46,7 +47,9 @@ def _t1():
     t["id"] = "T1"
     t["names"] = {"p1": "alpha", "p2": "n_jobs", "p3": "x", "p4": "use_cache", "kw": "fit_kwargs"}
     t["lit"] = ("left", "right")
+    t["litint"] = (1000, 2000)
     t["typ"]["LitStr"] = "Literal['left', 'right']"
+    t["typ"]["LitInt"] = "Literal[1000, 2000]"
     t["typ"]["Dotted"] = "tf.data.Dataset"
     t["def"] = {"int0": 0, "intPos": 1000, "intNeg": -1, "float": 1e-07, "boolT": True, "boolF": False,
                 "strEmpty": "", "str": "left"}
@@ -79,6 +82,8 @@ def random_table(seed):
     t["def"] = {"int0": 0, "intPos": r.choice((1, 2, 3, 7, 10, 42, 128, 65536)), "intNeg": -r.choice((1, 2, 3, 10, 100)),
                 "float": r.choice((0.5, 0.001, 2.5, 1e-3, 0.999, 3.14159, 1e-07, 10.0)), "boolT": True, "boolF": False,
                 "strEmpty": "", "str": lit[0]}
+    t["litint"] = (t["def"]["intPos"], t["def"]["intPos"] + 1)
+    t["typ"]["LitInt"] = "Literal[%d, %d]" % t["litint"]
 
     def sentence():
         n = r.randint(2, 9)
